@@ -384,6 +384,24 @@ func (engine) Body(r *simdrv.Run) {
 		r.Violate(prop, "hang", "hang", "a scrape or measurement never returned: %s", out.Detail)
 		return
 	}
+	// reach accounting
+	for i, a := range w.scrapes {
+		for j, b := range w.scrapes {
+			if i < j && a.inv < b.ret && b.inv < a.ret {
+				r.Fault("concurrent-scrapes")
+			}
+		}
+		for _, mo := range w.meas {
+			if mo.inv < a.ret && mo.ret > a.inv {
+				r.Fault("measurement-during-scrape")
+			}
+		}
+		for _, in := range w.insts {
+			if in.created > a.inv && in.created < a.ret {
+				r.Fault("instrument-created-during-scrape")
+			}
+		}
+	}
 	// ---- oracle ----
 	for _, p := range w.panics {
 		r.Violate(prop, "panic", "panic-in-collect", "the exporter's Collect panicked inside Gather: %s", p)
